@@ -94,7 +94,12 @@ def run(ctx):
         try:
             cfg = CONFIGS[(pi * ctx.nshards + ctx.shard) % len(CONFIGS)]
             size = rng.choice(["small", "small", "medium", "medium", "large", "fixture"])
-            sc = LogixScenario(rng, size=size, config=cfg)
+            project_, bigbits = None, None
+            if size != "fixture" and pi % 6 == 1:
+                # a BOOL array of more than 65535 BOOLs (2100 DWORDs): element counts and indices beyond 16 bits are legal for it
+                project_ = rpj.generate_project(rng, size, fw=cfg[1], micro800=cfg[2])
+                bigbits = rpj.add_array_tag(project_, rng, "BigBits_q", "DWORD", 2100)
+            sc = LogixScenario(rng, size=size, config=cfg, project=project_)
             res.count("projects")
             res.count(f"config:{sc.label}")
             if not sc.ok():
@@ -123,6 +128,9 @@ def run(ctx):
                     res.count("accessor-evaluations-between-reads")
                 k = rng.choice([1, 1, 1, 2, 3, 5, 8, 12, 25])
                 reqs = [logixreq.gen_request(sc.prj, rng, sc.conn_size) for _ in range(k)]
+                if bigbits is not None and ci % 3 == 0:
+                    reqs.append(logixreq.gen_request(sc.prj, rng, sc.conn_size, tag=bigbits))
+                    k += 1
                 dense = sc.large and sc.fw >= 21 and not sc.micro   # symbol-instance addressing on a 4000-byte connection: ~12 bytes per request
                 if ci == ncalls - 1 and (dense or pi % 3 == 0):
                     # "any number of tags in one call": hundreds of small requests - more than 255 services in one Multiple Service
